@@ -49,6 +49,32 @@ claim("C14",
       "totals, non-negativity, zero-stays-zero, the Poisson law, termination of the redistribution loop",
       "DESIGN.md section 6 C14")
 
+claim("C12",
+      "For the 12 reader / writer pairs: every emitted key is accepted by the reader, every constructor parameter is "
+      "wired from a dictionary key in the reader and written from the matching attribute in the writer under an "
+      "alias of the same key, consumed keys are canonical, synonym rows are disjoint; every name and self-attribute "
+      "in the serialisation layer resolves (star-import closure), standard-library calls bind against their "
+      "signatures; every file-reference branch resolves through get_path_with_base(.., base_path), load_* pass the "
+      "file's directory, children receive base_path, the trajectory data file is referenced relatively; emitted "
+      "\"type\" values are the dispatched ones.",
+      "static analysis: ast-based key-table extraction and set agreement (SCHEMA), name / attribute resolution with "
+      "star-import closure (RES), inspect.signature binding of stdlib calls, def-use checks for base-path resolution",
+      "equality of content after a round trip (values, conversions of printed quantities, float text)",
+      "DESIGN.md section 6 C12")
+
+claim("C15",
+      "Each branch of is_within_bounds entails 0 <= c < extent for every coordinate it accepts (truth-table "
+      "entailment), and get_cell_index / get_cell_coordinates return only after it held; every condition, wrap and "
+      "coordinate triple in the five neighbour enumerations (get_neighbors, are_neighbors, the kinetics derivative, "
+      "GetNeighborIndex, grid_to_graph) uses coordinate, extent and boundary flag of one and the same axis; each "
+      "enumeration's displacement set is the six unit moves with guards that keep the target inside the axis (linear "
+      "entailment); opposed_direction pairs opposite moves; index <-> coordinate maps are x + y*w + z*w*h and its "
+      "decode in both languages; grid_to_graph wires volume, environment, face and edge.",
+      "static analysis: propositional (truth-table) and linear entailment on guard atoms, per-axis token "
+      "consistency, polynomial normal forms of index maps, displacement-set recognisers over ast / Clang AST",
+      "symmetry of the neighbour relation as a theorem; equality of grid and graph trajectories",
+      "DESIGN.md section 6 C15")
+
 NOT_YET = {}
 
 def main():
